@@ -879,6 +879,7 @@ def p4(ctx: Ctx):
     lc = py.cls("LineNumberCheckerVisitor")
     vl = lc.methods.get("visit_line")
     ctx.need(vl is not None, "LineNumberCheckerVisitor.visit_line", "not found")
+    vl = _const_locals(vl)
     bound = None
     for n in ast.walk(vl):
         if isinstance(n, ast.If):
@@ -891,6 +892,8 @@ def p4(ctx: Ctx):
             raises = [x for x in n.body if isinstance(x, ast.Raise)]
             if bound is not None and raises:
                 rc = unparse(raises[0].exc)
+                if isinstance(raises[0].exc, ast.Call) and isinstance(raises[0].exc.func, ast.Attribute) and isinstance(raises[0].exc.func.value, ast.Name) and raises[0].exc.func.value.id in py.classes and raises[0].exc.func.attr in py.classes[raises[0].exc.func.value.id].classmethods:
+                    rc = raises[0].exc.func.value.id + "(" + rc  # (a factory classmethod of that class: checked with the raises below)
                 parts = n.test.values if isinstance(n.test, ast.BoolOp) and isinstance(n.test.op, ast.And) else [n.test]
                 extra = [unparse(pt) for pt in parts if not (isinstance(pt, ast.Compare) and len(pt.ops) == 1 and (isinstance(pt.ops[0], (ast.Gt, ast.GtE)) or (isinstance(pt.ops[0], ast.IsNot) and isinstance(pt.comparators[0], ast.Constant) and pt.comparators[0].value is None)))]
                 ctx.ob(
@@ -920,6 +923,12 @@ def p4(ctx: Ctx):
         for n in ast.walk(m.tree):
             if isinstance(n, ast.Raise) and n.exc is not None:
                 nm = call_name(n.exc) or (n.exc.id if isinstance(n.exc, ast.Name) else unparse(n.exc))
+                # a factory classmethod (`raise K.for_x(..)` whose every return is `cls(..)`) raises a K
+                if isinstance(n.exc, ast.Call) and isinstance(n.exc.func, ast.Attribute) and isinstance(n.exc.func.value, ast.Name) and n.exc.func.value.id in py.classes:
+                    fac = py.classes[n.exc.func.value.id].classmethods.get(n.exc.func.attr)
+                    rets_ = [r_ for r_ in ast.walk(fac) if isinstance(r_, ast.Return)] if fac is not None else []
+                    if rets_ and all(isinstance(r_.value, ast.Call) and isinstance(r_.value.func, ast.Name) and r_.value.func.id in ("cls", n.exc.func.value.id) for r_ in rets_):
+                        nm = n.exc.func.value.id
                 if nm in guarded_exc:
                     ctx.info(f"raise:{nm}", "exception: " + guarded_exc[nm], file=rel, line=n.lineno)
                     continue
@@ -1015,7 +1024,7 @@ def p6(ctx: Ctx):
         ok = all(x == label for x in nums)
         ctx.ob(f"{cls}:target", ok, "" if ok else f"{cls} emits ON ERROR GOTO {nums}, the dispatcher is labelled {label}", file=r[0].module, line=r[1].lineno)
     # bound + 1 == label
-    lc = py.cls("LineNumberCheckerVisitor").methods["visit_line"]
+    lc = _const_locals(py.cls("LineNumberCheckerVisitor").methods["visit_line"])
     bound = None
     for c in ast.walk(lc):
         if isinstance(c, ast.Compare) and isinstance(c.comparators[0], ast.Constant) and isinstance(c.comparators[0].value, int) and c.comparators[0].value > 1000:
@@ -1071,8 +1080,10 @@ def p6(ctx: Ctx):
     gen = next((n for n in ast.walk(P.fn) if isinstance(n, ast.Call) and call_name(n) == "generate"), None)
     ctx.need(gen is not None, "convert", "error_handler.generate call not found")
     kw = {k.arg: unparse(k.value) for k in gen.keywords}
-    okk = kw.get("brk_line") == "brk_line" and kw.get("err_line") == "err_line"
+    # (by role: each keyword receives a local; which collector that local comes from is decided below)
+    okk = set(kw) == {"brk_line", "err_line"} and all(isinstance(k.value, ast.Name) for k in gen.keywords) and kw["brk_line"] != kw["err_line"]
     ctx.ob("convert->generate", okk, "" if okk else f"generate() is called with {kw}", file=COMPILER_REL, line=gen.lineno)
+    kw_names = {k.arg: k.value.id for k in gen.keywords if isinstance(k.value, ast.Name)}
     # the dispatcher lines reach the program whenever suffixes are on and a handler was requested:
     # the guard of append_lines(<result of generate>) is evaluated for every presence combination of the two targets
     from .pyast import resolve_alias as _ra2
@@ -1103,7 +1114,7 @@ def p6(ctx: Ctx):
         else:
             ctx.ob("dispatcher:appended", not lost, "" if not lost else f"with suffixes on, the dispatcher lines are appended under {ins.conds}: for {lost} `ON ERROR GOTO {label}` is emitted but no line {label} exists", file=COMPILER_REL, line=ins.line, witness="" if not lost else "10 ON BRK GOTO 20 / 20 END")
     # brk_line comes from the ON BRK collector, err_line from the ON ERR collector
-    for var, cls in (("err_line", "BasicOnErrGoStatement"), ("brk_line", "BasicOnBrkGoStatement")):
+    for var, cls in ((kw_names.get("err_line", "err_line"), "BasicOnErrGoStatement"), (kw_names.get("brk_line", "brk_line"), "BasicOnBrkGoStatement")):
         d = next((n for n in ast.walk(P.fn) if isinstance(n, (ast.Assign, ast.AnnAssign)) and isinstance((n.targets[0] if isinstance(n, ast.Assign) else n.target), ast.Name) and (n.targets[0] if isinstance(n, ast.Assign) else n.target).id == var), None)
         ctx.need(d is not None, var, "assignment not found in convert()")
         coll = re.match(r"(\w+)\.statements\[0\]\.linenum", unparse(d.value))
@@ -1112,6 +1123,30 @@ def p6(ctx: Ctx):
             p = next((p for p in P.passes if p.var == coll.group(1)), None)
             okv = p is not None and p.ctor.args and isinstance(p.ctor.args[0], ast.Name) and p.ctor.args[0].id == cls
         ctx.ob(f"{var}<-{cls}", okv, "" if okv else f"`{var}` is not the target (line number) of the single {cls}: the dispatcher jumps elsewhere / prints something that is not a line number", file=COMPILER_REL, line=d.lineno, props=["C06", "C07"])
+
+
+def _const_locals(fn: ast.FunctionDef) -> ast.FunctionDef:
+    """A copy of fn in which a local bound exactly once, to a constant, reads as that constant (`limit = 32699` ... `n > limit`)."""
+    import copy as _copy
+
+    fn = _copy.deepcopy(fn)
+    stores: Dict[str, int] = {}
+    vals: Dict[str, ast.Constant] = {}
+    for n in ast.walk(fn):
+        if isinstance(n, ast.Name) and isinstance(n.ctx, ast.Store):
+            stores[n.id] = stores.get(n.id, 0) + 1
+        if isinstance(n, ast.Assign) and len(n.targets) == 1 and isinstance(n.targets[0], ast.Name) and isinstance(n.value, ast.Constant):
+            vals[n.targets[0].id] = n.value
+    params = {a.arg for a in fn.args.args + fn.args.kwonlyargs}
+    vals = {k: v for k, v in vals.items() if stores.get(k) == 1 and k not in params}
+
+    class _S(ast.NodeTransformer):
+        def visit_Name(self, n):
+            if isinstance(n.ctx, ast.Load) and n.id in vals:
+                return ast.copy_location(ast.Constant(value=vals[n.id].value), n)
+            return n
+
+    return _S().visit(fn)
 
 
 # ---------------------------------------------------------------------------
@@ -1147,7 +1182,8 @@ def p7(ctx: Ctx):
         others = [unparse(x) for x in parts_ if unparse(x) != tgt_]
         oks = len(others) == 1 and re.fullmatch(r"isinstance\(\w+,\s*BasicHbuffStatement\)", others[0]) is not None
     ctx.idiom("has_hbuff<=>BasicHbuffStatement", bool(tests) or bool(acc), oks, "" if oks else "the HBUFF flag is not set exactly under isinstance(statement, BasicHbuffStatement)", file=VISITORS_REL, line=vs.lineno)
-    init = pv.methods.get("__init__")
+    r_init = py.resolve_method(pv.name, "__init__") if "__init__" not in pv.methods else (pv, pv.methods["__init__"])
+    init = r_init[1] if r_init is not None else None
     okf = init is not None and any(isinstance(n, ast.Assign) and is_self_attr(n.targets[0]) and isinstance(n.value, ast.Constant) and n.value.value is False for n in ast.walk(init))
     ctx.ob("has_hbuff:initially-false", okf, "" if okf else "the HBUFF flag does not start as False", file=VISITORS_REL, line=pv.node.lineno)
     # only visit_hbuff_statement builds BasicHbuffStatement
